@@ -216,6 +216,10 @@ func (s *Solver) name(t *Term) (string, error) {
 		return "", err
 	}
 	s.send("(define-fun " + nm + " () " + s.pr.SortStr(t.Sort) + " " + e + ")")
+	if t.Op == OUF && s.pr.IntMode && t.Sort.K == KBV {
+		// integer encoding: the result of an uninterpreted function is a machine word too
+		s.send("(assert (and (>= " + nm + " 0) (< " + nm + " " + pow2(t.Sort.W) + ")))")
+	}
 	s.scopes[len(s.scopes)-1].named[t.id] = true
 	return nm, nil
 }
